@@ -145,6 +145,7 @@ type locItem struct {
 	rootOf      *Term // every location inside this object, or
 	arr         *Term // every element leaf (with field chain sub) of this array location
 	sub         []int
+	all         bool // the whole class (specification-only fields: gfall(name, Type))
 }
 
 // elemLeafOf: l is the leaf (field chain sub) of some element of the array at arr; also
@@ -242,6 +243,11 @@ func (env *SpecEnv) modItems(c *Clause) (items []locItem, err error) {
 				d, ds, v, vs := mapClasses(mp)
 				items = append(items, locItem{class: d, sort: ds, loc: m}, locItem{class: v, sort: vs, loc: m}, locItem{class: mapLenClass, sort: mapLenSort, loc: m})
 				continue
+			case "gfall":
+				t := env.resolveTypeExpr(a.Args[2])
+				cl, so := ghostClass(a.Args[1].Name, t)
+				items = append(items, locItem{class: cl, sort: so, all: true})
+				continue
 			case "gf":
 				o, _ := env.tr(a.Args[1])
 				t := env.resolveTypeExpr(a.Args[3])
@@ -270,6 +276,8 @@ func inItems(l *Term, class string, items []locItem) *Term {
 			continue
 		}
 		switch {
+		case it.all:
+			return True
 		case it.loc != nil:
 			ds = append(ds, Eq(l, it.loc))
 		case it.arr != nil:
@@ -693,6 +701,13 @@ func (e *FnExec) applyContract(st *State, key string, con *Contract, sig *types.
 						if it.loc != nil {
 							// nil-based locations cannot be written at all
 							g = Or(inItems(it.loc, it.class, li.items), Le(li.before.ctr, Root(it.loc)), Eq(Root(it.loc), IntLit(0)))
+						} else if it.all {
+							g = False
+							for _, lit := range li.items {
+								if lit.class == it.class && lit.all {
+									g = True
+								}
+							}
 						} else {
 							var ds []*Term
 							for _, lit := range li.items {
